@@ -38,6 +38,8 @@ pub struct World {
     pub closed: bool,
     /// make `send` fail
     pub send_fails: bool,
+    /// let the explorer make individual sends fail (before / after delivery)
+    pub faulty_sends: bool,
     pub recv_polls: u64,
     pub recv_delivered: u64,
     /// if set, messages become visible to recv only after the client has sent this many messages
@@ -55,6 +57,7 @@ impl Default for World {
             stall_mode: StallMode::Never,
             closed: false,
             send_fails: false,
+            faulty_sends: false,
             recv_polls: 0,
             recv_delivered: 0,
             hold_inbox_until_sent: 0,
@@ -154,7 +157,13 @@ impl SendHandle for MemSender {
     async fn send(&mut self, data: Bytes) -> Result<(), Error> {
         // 0 = completes at once; 1 = pending before anything is written; 2 = the bytes reach the
         // peer but the call stays pending once more (write_all done, flush pending)
-        let mode = if self.wire.lock().stall_mode == StallMode::Ask { choose("send", 3) } else { 0 };
+        // with `faulty_sends`: 3 = the bytes reach the peer but the call reports an I/O error (write_all ok,
+        // flush fails), 4 = the call fails before anything was written
+        let (ask, faulty) = { let w = self.wire.lock(); (w.stall_mode == StallMode::Ask, w.faulty_sends) };
+        let mode = if ask { choose("send", if faulty { 5 } else { 3 }) } else { 0 };
+        if mode == 4 {
+            return Err(io_err("injected send failure (nothing written)"));
+        }
         if mode == 1 {
             self.stall().await;
         }
@@ -175,6 +184,9 @@ impl SendHandle for MemSender {
         }
         if mode == 2 {
             self.stall().await;
+        }
+        if mode == 3 {
+            return Err(io_err("injected send failure (after the bytes were delivered)"));
         }
         Ok(())
     }
